@@ -294,7 +294,7 @@ pub fn tf_in_or_zero(r: &mut Rng, emin: i64, emax: i64) -> (f64, f64) {
     }
 }
 
-pub const N_PAIR_RELS: u64 = 12;
+pub const N_PAIR_RELS: u64 = 13;
 
 /// Second operand related to the first: the relations where the algorithms' case analyses are tight.
 pub fn tf_related(r: &mut Rng, a: (f64, f64), emin: i64, emax: i64, rel: u64) -> (f64, f64) {
@@ -369,6 +369,14 @@ pub fn tf_related(r: &mut Rng, a: (f64, f64), emin: i64, emax: i64, rel: u64) ->
             } else {
                 None
             }
+        }
+        12 => {
+            // ratio within a few ulps of a power of two: b.hi = a.hi * 2^k stepped (Sterbenz-type boundaries)
+            let k = pk!(r, [-2i64, -1, -1, 1, 1, 2]);
+            let h = step(a.0 * pow2(k), r.range(-3, 3));
+            let h = if r.coin() { h } else { -h };
+            let (h, l, _) = tf_with_hi(r, h);
+            Some((h, l))
         }
         10 => {
             // same high word, independent low word
